@@ -456,4 +456,286 @@ theorem tie_jsonNumberCases : jsonNumberCases.drop 1 =
      "default -> return newTypeMismatchErrorWithHint(fullName, typeKind.String(), numberTypeString)"] := by
   first | exact Or.inl (by decide) | exact Or.inr (by decide)
 
+/-! ### round 4: allocation sites, per-element functions, state between calls -/
+
+/-- `genMapSite = .perEntry`: every cell stored under a key by `generateMap` is allocated in the loop body (a fresh `reflect.New` / a fresh inner map / a fresh `reflect.ValueOf` copy per key); nothing a pointer element can refer to lives outside the loop (seeded C17-5 hoisted the json.Number cell: "outer numTarget"). -/
+theorem tie_genMapAlloc : genMapAlloc =
+    ["SetMapIndexValue target.Elem() <- loop target := reflect.New(dereffedElemType)",
+  "SetMapIndexValue target.Elem() <- loop target := reflect.New(dereffedElemType)",
+  "SetMapIndexValue innerValue <- loop innerValue := u.generateMap(dereffedElemType.Key(), dereffedElemType.Elem(), keythMap, mapFullName)",
+  "SetMapIndexValue reflect.ValueOf(v) <- outer reflect",
+  "SetMapIndexValue val <- loop val := reflect.ValueOf(v)",
+  "SetMapIndexValue target.Elem() <- loop target := reflect.New(dereffedElemType)",
+  "targetValue.SetMapIndex keythValue <- loop keythValue := refValue.MapIndex(key)"] := by rfl
+
+/-- `fillSlice` / `sliceElems` (`fillSliceSite = .perEntry`): one `MakeSlice` per slice value, element i is filled through `conv.Index(i)`; null elements are skipped; the field is set only when some element was non-null. -/
+theorem tie_mFillSlice : mFillSlice =
+    ["if !value.CanSet()",
+  "call value.CanSet()",
+  "return errValueNotSettable",
+  "if fieldType.Kind() == reflect.Ptr",
+  "call fieldType.Kind()",
+  "call Deref(fieldType)",
+  "call reflect.New(baseType).Elem()",
+  "call reflect.New(baseType)",
+  "if err != nil",
+  "call u.fillSlice(baseType, target, mapValue, fullName)",
+  "return err",
+  "call SetValue(fieldType, value, target)",
+  "return nil",
+  "call reflect.ValueOf(mapValue)",
+  "if refValue.Kind() != reflect.Slice",
+  "call refValue.Kind()",
+  "return newTypeMismatchErrorWithHint(fullName, reflect.Slice.String(), fmt.Sprintf(\"%T\", mapValue))",
+  "call newTypeMismatchErrorWithHint(fullName, reflect.Slice.String(), fmt.Sprintf(\"%T\", mapValue))",
+  "call reflect.Slice.String()",
+  "call fmt.Sprintf(\"%T\", mapValue)",
+  "if refValue.IsNil()",
+  "call refValue.IsNil()",
+  "return nil",
+  "call fieldType.Elem()",
+  "call Deref(baseType)",
+  "call dereffedBaseType.Kind()",
+  "if refValue.Len() == 0",
+  "call refValue.Len()",
+  "call value.Set(reflect.MakeSlice(reflect.SliceOf(baseType), 0, 0))",
+  "call reflect.MakeSlice(reflect.SliceOf(baseType), 0, 0)",
+  "call reflect.SliceOf(baseType)",
+  "return nil",
+  "call reflect.MakeSlice(reflect.SliceOf(baseType), refValue.Len(), refValue.Cap())",
+  "call reflect.SliceOf(baseType)",
+  "call refValue.Len()",
+  "call refValue.Cap()",
+  "call refValue.Len()",
+  "call refValue.Index(i).Interface()",
+  "call refValue.Index(i)",
+  "if ithValue == nil",
+  "call fmt.Sprintf(\"%s[%d]\", fullName, i)",
+  "if err != nil",
+  "call u.fillStructElement(baseType, conv.Index(i), ithValue, sliceFullName)",
+  "call conv.Index(i)",
+  "return err",
+  "if err != nil",
+  "call u.fillSlice(baseType, conv.Index(i), ithValue, sliceFullName)",
+  "call conv.Index(i)",
+  "return err",
+  "if err != nil",
+  "call u.fillSliceValue(conv, i, dereffedBaseKind, ithValue, sliceFullName)",
+  "return err",
+  "if valid",
+  "call value.Set(conv)",
+  "return nil"] := by rfl
+
+/-- `sliceElemPrim` and the per-element allocation of pointer elements: `target := reflect.New(baseType).Elem()` for every element. -/
+theorem tie_mFillSliceValue : mFillSliceValue =
+    ["if value == nil",
+  "return errNilSliceElement",
+  "call slice.Index(index)",
+  "call ithVal.Type()",
+  "return setValueFromString(baseKind, ithVal, v.String())",
+  "call setValueFromString(baseKind, ithVal, v.String())",
+  "call v.String()",
+  "return setValueFromString(baseKind, ithVal, v)",
+  "call setValueFromString(baseKind, ithVal, v)",
+  "call Deref(ithValType).Kind()",
+  "call Deref(ithValType)",
+  "return u.fillStructElement(ithValType, ithVal, v, fullName)",
+  "call u.fillStructElement(ithValType, ithVal, v, fullName)",
+  "return u.fillMap(ithValType, ithVal, value, fullName)",
+  "call u.fillMap(ithValType, ithVal, value, fullName)",
+  "return errTypeMismatch",
+  "if ithVal.Kind() == reflect.Ptr",
+  "call ithVal.Kind()",
+  "call Deref(ithValType)",
+  "if !reflect.TypeOf(value).AssignableTo(baseType)",
+  "call reflect.TypeOf(value).AssignableTo(baseType)",
+  "call reflect.TypeOf(value)",
+  "return errTypeMismatch",
+  "call reflect.New(baseType).Elem()",
+  "call reflect.New(baseType)",
+  "call target.Set(reflect.ValueOf(value))",
+  "call reflect.ValueOf(value)",
+  "call SetValue(ithValType, ithVal, target)",
+  "return nil",
+  "if !reflect.TypeOf(value).AssignableTo(ithValType)",
+  "call reflect.TypeOf(value).AssignableTo(ithValType)",
+  "call reflect.TypeOf(value)",
+  "return errTypeMismatch",
+  "call ithVal.Set(reflect.ValueOf(value))",
+  "call reflect.ValueOf(value)",
+  "return nil"] := by rfl
+
+/-- struct elements: a fresh `reflect.New(Deref(baseType))` per element. -/
+theorem tie_mFillStructElement : mFillStructElement =
+    ["if !ok",
+  "return errTypeMismatch",
+  "call reflect.New(Deref(baseType))",
+  "call Deref(baseType)",
+  "if err != nil",
+  "call u.unmarshal(val, ptr.Interface(), fullName)",
+  "call ptr.Interface()",
+  "return err",
+  "call SetValue(baseType, target, ptr.Elem())",
+  "call ptr.Elem()",
+  "return nil"] := by rfl
+
+/-- `wrapPtr`: an addressable cell is pointed at directly, anything else is copied into a fresh `reflect.New` per pointer level. -/
+theorem tie_uConvertTypeOfPtr : uConvertTypeOfPtr =
+    ["if tp.Kind() == reflect.Ptr && target.CanAddr()",
+  "call tp.Kind()",
+  "call target.CanAddr()",
+  "call tp.Elem()",
+  "call target.Addr()",
+  "call tp.Kind()",
+  "call reflect.New(target.Type())",
+  "call target.Type()",
+  "call p.Elem().Set(target)",
+  "call p.Elem()",
+  "call tp.Elem()",
+  "return target"] := by rfl
+
+/-- the map entry is the converted target. -/
+theorem tie_uSetMapIndexValue : uSetMapIndexValue =
+    ["call value.SetMapIndex(key, convertTypeOfPtr(tp, target))",
+  "call convertTypeOfPtr(tp, target)"] := by rfl
+
+/-- the field is the converted target. -/
+theorem tie_uSetValue : uSetValue =
+    ["call value.Set(convertTypeOfPtr(tp, target))",
+  "call convertTypeOfPtr(tp, target)"] := by rfl
+
+/-- `buildOptions`: the option record of `conf.Load` is a local zero value, fresh for every call (seeded C17-4 took a pointer to a package-level default). -/
+theorem tie_cLoadDecls : cLoadDecls =
+    ["var opt options"] := by rfl
+
+/-- state of package conf that outlives a call: the default-filling unmarshaller and the loaders table, nothing else. -/
+theorem tie_cPkgVars : cPkgVars =
+    ["fillDefaultUnmarshaler = mapping.NewUnmarshaler(jsonTagKey, mapping.WithDefault())",
+  "loaders = map[string]func([]byte, any) error{ \".json\": LoadFromJsonByt"] := by rfl
+
+/-- options.go holds no package-level state. -/
+theorem tie_cOptionsPkgVars : cOptionsPkgVars =
+    [] := by rfl
+
+/-- the default JSON unmarshaller (no options) is the only package-level state of jsonunmarshaler.go. -/
+theorem tie_mJsonPkgVars : mJsonPkgVars =
+    ["jsonUnmarshaler = NewUnmarshaler(jsonTagKey)"] := by rfl
+
+/-- jsonx has no package-level state. -/
+theorem tie_xPkgVars : xPkgVars =
+    [] := by rfl
+
+/-- internal/encoding has no package-level state. -/
+theorem tie_ePkgVars : ePkgVars =
+    [] := by rfl
+
+/-! ### round 4: decisions TRANSLATED from the Go conditions (extract/c17.go `c17Conds`), proven equal to the model's
+decisions for all arguments.  A changed comparison operator, a negation, a swapped operand or constant breaks them. -/
+
+/-- no new condition entered the functions whose conditions are translated. -/
+theorem tie_condCounts : rangeCondCount = 4 ∧ getUnmCondCount = 1 ∧ loadCondCount = 4 ∧ fillSliceCondCount = 11 ∧
+    genMapCondCount = 12 ∧ lowerMapCondCount = 4 ∧ loadJsonCondCount = 3 := by decide
+
+theorem dec_le_not_lt (x y : Int) : decide (x ≤ y) = !decide (y < x) := by
+  by_cases h : x ≤ y
+  · have h2 : ¬ y < x := by omega
+    simp [h, h2]
+  · have h2 : y < x := by omega
+    simp [h, h2]
+
+theorem dec_lt_not_le (x y : Int) : decide (x < y) = !decide (y ≤ x) := by
+  by_cases h : x < y
+  · have h2 : ¬ y ≤ x := by omega
+    simp [h, h2]
+  · have h2 : y ≤ x := by omega
+    simp [h, h2]
+
+/-- `inRange`, no range: `nr == nil` ⇒ valid. -/
+theorem tie_rangeNone (b : Bool) : rangeCond0 b = b := rfl
+
+/-- `inRange`, left bound: the value `n/d` violates the bound `a/b` iff NOT (`a/b ≤ n/d` when inclusive, `a/b < n/d`
+when exclusive) — the model compares the exact fractions by cross-multiplication. -/
+theorem tie_rangeLeft (inc : Bool) (a n : Int) (b d : Nat) :
+    rangeCond2 inc (n * b) (a * d) = !(if inc then fracLe a b n d else fracLt a b n d) := by
+  cases inc
+  · simp only [rangeCond2, fracLe, fracLt, Bool.false_and, Bool.not_false, Bool.true_and, Bool.false_or, if_false, Bool.false_eq_true]
+    exact dec_le_not_lt _ _
+  · simp only [rangeCond2, fracLe, fracLt, Bool.true_and, Bool.not_true, Bool.false_and, Bool.or_false, if_true]
+    exact dec_lt_not_le _ _
+
+/-- `inRange`, right bound. -/
+theorem tie_rangeRight (inc : Bool) (a n : Int) (b d : Nat) :
+    rangeCond3 inc (n * b) (a * d) = !(if inc then fracLe n d a b else fracLt n d a b) := by
+  cases inc
+  · simp only [rangeCond3, fracLe, fracLt, Bool.false_and, Bool.not_false, Bool.true_and, Bool.false_or, if_false, Bool.false_eq_true, ge_iff_le, gt_iff_lt]
+    exact dec_le_not_lt _ _
+  · simp only [rangeCond3, fracLe, fracLt, Bool.true_and, Bool.not_true, Bool.false_and, Bool.or_false, if_true, ge_iff_le, gt_iff_lt]
+    exact dec_lt_not_le _ _
+
+/-- `freshUnmarshaler`: `len(opts) > 0`. -/
+theorem tie_getUnmCond (n : Nat) : getUnmCond0 (n : Int) = freshUnmarshaler n := by
+  cases n <;> simp [getUnmCond0, freshUnmarshaler] <;> omega
+
+/-- `loadContent`: the content is expanded exactly under `if opt.env`. -/
+theorem tie_loadEnvCond (expand : Str → Str) (e : Bool) (c : Str) :
+    (if loadCond2 e then expand c else c) = loadContent expand e c := by
+  cases e <;> rfl
+
+/-- `confLoad`: `!ok` (no loader for the extension) ⇒ error; errors of ReadFile / of the loader are returned. -/
+theorem tie_loadErrConds (b : Bool) : loadCond1 b = !b ∧ loadCond0 b = !b ∧ loadCond3 b = !b := ⟨rfl, rfl, rfl⟩
+
+/-- `fillSlice`: `refValue.Len() == 0` ⇒ the empty, non-nil slice (`l.isNil`). -/
+theorem tie_fillSliceEmpty (l : JL) : fillSliceCond5 (l.length : Int) = l.isNil := by
+  cases l with
+  | nil => rfl
+  | cons h t =>
+    simp only [fillSliceCond5, JL.isNil, JL.length]
+    have hne : ¬ (((t.length + 1 : Nat) : Int) = 0) := by omega
+    exact decide_eq_false hne
+
+/-- `sliceElems`: a null element is skipped (`ithValue == nil` ⇒ continue), the slice is stored iff some element was
+valid (`if valid`), a non-slice value is a type mismatch, a pointer type is dereferenced first. -/
+theorem tie_fillSliceDecisions (b : Bool) (k c : Int) :
+    fillSliceCond6 b = b ∧ fillSliceCond10 b = b ∧ fillSliceCond4 b = b ∧ fillSliceCond0 b = !b ∧
+    fillSliceCond3 k c = !decide (k = c) ∧ fillSliceCond1 k c = decide (k = c) := ⟨rfl, rfl, rfl, rfl, rfl, rfl⟩
+
+/-- `mapElemPrim`: a bool / string value into an element of another kind is a type mismatch (`if p = .bool`,
+`if p = .string`), any other value must have the element's kind; an identical map type is taken as is. -/
+theorem tie_genMapDecisions (k c : Int) (b : Bool) :
+    genMapCond7 k c = !decide (k = c) ∧ genMapCond8 k c = !decide (k = c) ∧ genMapCond11 k c = !decide (k = c) ∧
+    genMapCond0 k c = decide (k = c) ∧ genMapCond1 k c = !decide (k = c) ∧ genMapCond9 b = !b ∧
+    genMapCond3 b = !b ∧ genMapCond5 b = !b := ⟨rfl, rfl, rfl, rfl, rfl, rfl, rfl, rfl⟩
+
+/-- `lowerMap`: exact child / lower-cased child / `mapField != nil` / nested map — the polarity of each test. -/
+theorem tie_lowerMapDecisions (b : Bool) :
+    lowerMapCond0 b = b ∧ lowerMapCond1 b = b ∧ lowerMapCond2 b = !b ∧ lowerMapCond3 b = b := ⟨rfl, rfl, rfl, rfl⟩
+
+/-- `loadTreeWithO`: every error (info, generic tree, unmarshal) is returned. -/
+theorem tie_loadJsonDecisions (b : Bool) : loadJsonCond0 b = !b ∧ loadJsonCond1 b = !b ∧ loadJsonCond2 b = !b :=
+  ⟨rfl, rfl, rfl⟩
+
+/-- `FMeta.tagKey` as `conf` reads it (`getTagName`): the tag up to the first ',' (a ',' at position 0 included: the
+name is then empty), trimmed; an empty name ⇒ the field's Go name. -/
+theorem tie_cGetTagName : cGetTagName =
+    ["if ok", "call field.Tag.Lookup(jsonTagKey)", "if pos >= 0", "call strings.IndexByte(tag, jsonTagSep)",
+     "call strings.TrimSpace(tag)", "if len(tag) > 0", "call len(tag)", "return tag", "return field.Name"] := by rfl
+
+/-- the tag is cut at EVERY separator position ≥ 0 (`strings.IndexByte` returns -1 for none), the cut name is used
+iff it is non-empty. -/
+theorem tie_tagNameDecisions (pos : Int) (n : Nat) (b : Bool) :
+    tagNameCondCount = 3 ∧ tagNameCond0 b = b ∧ tagNameCond1 pos = decide (0 ≤ pos) ∧
+    tagNameCond2 (n : Int) = decide (n ≠ 0) := by
+  refine ⟨rfl, rfl, rfl, ?_⟩
+  cases n with
+  | zero => rfl
+  | succ k =>
+    simp [tagNameCond2]
+
+/-- the deprecated wrappers are the loaders. -/
+theorem tie_cLoadConfigJson : cLoadConfigJson =
+    ["return LoadFromJsonBytes(content, v)", "call LoadFromJsonBytes(content, v)"] := by rfl
+
+theorem tie_cLoadConfigYaml : cLoadConfigYaml =
+    ["return LoadFromYamlBytes(content, v)", "call LoadFromYamlBytes(content, v)"] := by rfl
+
 end GoZero.C17.Tie
